@@ -58,7 +58,7 @@ CASE = st.fixed_dictionaries({
     "plus_cols": st.booleans(), "uid": st.sampled_from([None, None, 0, 27]), "calls": st.sampled_from([1, 2, 3, 1, 2, 3, 0, -1]),      # 0: closed without any write(); -1: only write(None)
     "reopen": st.booleans(),          # TractWriter: close() and open() again between write() calls
     "level": st.sampled_from(["TractList", "PLSSDesc"]),      # tracts_to_csv / records through the container or through the description
-    "write_form": st.sampled_from(["descs", "tractlist", "tracts", "generator", "mixed", "one_by_one"]),   # what write() is handed
+    "write_form": st.sampled_from(["descs", "tractlist", "tracts", "generator", "mixed", "one_by_one", "descs_with_repeat", "tracts_with_repeat"]),   # what write() is handed
 })
 
 
@@ -157,6 +157,29 @@ def oracle(c):
                 if list(rec) != want:
                     fails.append(Failure(f"{name}:values", f"{name}: record {i} is {rec}, expected {want}", **ctx))
                     break
+        # two streams consumed side by side, and a list export in the middle of a stream: each stream still gives every tract once
+        pairs = list(zip(tl.iter_to_list(attrs), tl.iter_to_dict(attrs)))
+        it = tl.iter_to_list(attrs)
+        head = [next(it)] if tracts else []
+        tl.tracts_to_list(attrs)
+        interleaved = head + list(it)
+        want_lists = [[val(t, a) for a in attrs] for t in tracts]
+        if [list(p[0]) for p in pairs] != want_lists or [p[1] for p in pairs] != [{a: val(t, a) for a in attrs} for t in tracts]:
+            fails.append(Failure("iter_side_by_side", f"zip(iter_to_list, iter_to_dict) gave {len(pairs)} records for {len(tracts)} tracts (or other values)", **ctx))
+        if [list(r) for r in interleaved] != want_lists:
+            fails.append(Failure("iter_interleaved_with_export", f"iter_to_list with a tracts_to_list() call after its first record gave {len(interleaved)} records for {len(tracts)} tracts", **ctx))
+        # attribute names may be given separately, as one list, or mixed (a name followed by a list of names)
+        if len(attrs) >= 2:
+            for name, got in (("tracts_to_list(name, [names])", tl.tracts_to_list(attrs[0], list(attrs[1:]))),
+                              ("tracts_to_dict(name, (names))", [list(r.values()) for r in tl.tracts_to_dict(attrs[0], tuple(attrs[1:]))]),
+                              ("iter_to_list([name], name, ...)", list(tl.iter_to_list([attrs[0]], *attrs[1:]))),
+                              ("PLSSDesc.tracts_to_list(name, [names])", descs[0].tracts_to_list(attrs[0], list(attrs[1:])))):
+                src = tracts if not name.startswith("PLSSDesc") else list(descs[0].tracts)
+                if len(dict.fromkeys(attrs)) != len(attrs) and "dict" in name:
+                    continue
+                if [list(r) for r in got] != [[val(t, a) for a in attrs] for t in src]:
+                    fails.append(Failure("mixed_attribute_arguments", f"{name} with {attrs}: {len(got)} records {str(got)[:200]}", **ctx))
+                    break
         one = tracts[0]
         if one.to_dict(*attrs) != {a: val(one, a) for a in attrs} or one.to_list(attrs) != [val(one, a) for a in attrs]:
             fails.append(Failure("tract_to_dict_list", f"Tract.to_dict/to_list disagree with the attributes", **ctx))
@@ -212,6 +235,13 @@ def oracle(c):
                     objs = list(ts)
                 elif form == "generator":
                     objs = (d for d in chunk)
+                elif form == "descs_with_repeat" and chunk:
+                    # the same description object named twice in one batch: written twice
+                    objs = list(chunk) + [chunk[0]]
+                    ts = ts + list(chunk[0].tracts)
+                elif form == "tracts_with_repeat" and ts:
+                    objs = list(ts) + [ts[0], ts[-1]]
+                    ts = ts + [ts[0], ts[-1]]
                 elif form == "mixed":
                     objs = [chunk[0]] + [t for d in chunk[1:] for t in d.tracts] if chunk else []
                 else:
